@@ -40,4 +40,3 @@ def run(ctx):
     P.check_ops("K2-op", PRE + POST)
     for hook in ["pre_create_transform", "pre_modify", "pre_batch_modify", "post_modify", "post_batch_modify", "post_repl_incremental"]:
         hook_nontrivial(ctx, "K2-hook-body", "spn", "Spn", hook)
-    ctx.floor("K2-contains", "registries requiring Spn", len(PRE + POST), 6)
